@@ -8,7 +8,7 @@ import re
 from automat import NoTransition
 
 from wormhole._key import derive_phase_key, decrypt_data, CryptoError
-from wormhole.util import bytes_to_dict
+from wormhole.util import bytes_to_dict, dict_to_bytes
 
 from .worlds.mailbox import World, MACHINES
 
@@ -336,7 +336,7 @@ def patch_world_internal_names(world):
 # guided random schedules
 
 PROFILES = ["set", "allocate", "input", "set-mismatch", "lonely", "welcome-error", "crowded", "fail-initial",
-            "late-peer", "drops", "welcome-error-later"]
+            "late-peer", "drops", "welcome-error-later", "third"]
 
 
 def summarize(W, ob):
@@ -415,6 +415,17 @@ def guided(seed, n_ops, profile, welcome_error=None, finish_run=False):
                     choices += [["dupmsg", 0, rng.randrange(4)]]
                 if len(W.msg_frames(0)) >= 2 and rng.random() < 0.5:
                     choices += [["swapmsg", 0, rng.randrange(4), rng.randrange(4)]] * 2
+                # a third participant: the mailbox relays a message whose side is neither ours nor the peer's
+                # (a stranger's well-formed PAKE element, or bytes that open under no key), at any time
+                if (profile == "third" or rng.random() < 0.02) and c0.conn.sp._listening:
+                    ph3 = rng.choice(["pake", "pake", "version", "0", "1"])
+                    if ph3 == "pake":
+                        from spake2 import SPAKE2_Symmetric
+                        el = SPAKE2_Symmetric(b"9-some-stranger", idSymmetric=b"x").start()
+                        body3 = dict_to_bytes({"pake_v1": el.hex()}) if rng.random() < 0.8 else b"{}"
+                    else:
+                        body3 = bytes(rng.randrange(256) for _ in range(rng.choice([0, 24, 40, 60])))
+                    choices += [["inject", 0, "7h1rd51de", ph3, body3.hex()]] * (3 if profile == "third" else 1)
             if c0.svc.stopping is not None and not c0.svc.stopping.called:
                 choices += [["svc_stopped", 0]] * 4
             if c0.eq._calls:
